@@ -174,7 +174,8 @@ def stepC03 (c : Option Ctx) (ws : List String) : Option Ctx × String :=
   | ["reset", rsv, pool, slots] =>
       match parseList rsv, parseList pool, parseSlots (slots.splitOn ";") with
       | some rsv, some pool, some recs =>
-          if recs.length ≠ MAX ∨ pool.isEmpty ∨ pool.length > 64 ∨ !(rsv.all bytesOk) ∨ !(pool.all bytesOk) then (c, "bad-op") else
+          if recs.length ≠ MAX ∨ pool.isEmpty ∨ pool.length > 64 ∨ !(rsv.all bytesOk) ∨ !(pool.all bytesOk) ∨
+              !(rsv.all fun r => !r.isEmpty && r.all (· > 32)) then (c, "bad-op") else
           let s : St := { recs := recs, sess := [] }
           (some { reserved := rsv, pool := pool, st := s, tick := 1000 },
             s!"ok used={used s} tbl={hex16 (tblDigest pool s)}")
